@@ -20,8 +20,8 @@ func fa64Line(fr, mg, x, y float64) string {
 	return fmt.Sprintf("fa64 %d %d %d %d", math.Float64bits(fr), math.Float64bits(mg), math.Float64bits(x), math.Float64bits(y))
 }
 
-func dp32Line(p float32, x, y int64) string {
-	return fmt.Sprintf("dp32 %d %d %d", math.Float32bits(p), x, y)
+func dp64Line(p float32, x, y int64) string {
+	return fmt.Sprintf("dp64 %d %d %d", math.Float32bits(p), x, y)
 }
 
 // ieeeLine: the IEEE-tier request for a single-atom value case of the atom's own kind, if there is one.
@@ -37,7 +37,7 @@ func (c vcase) ieeeLine() (string, bool) {
 	case a.Kind == "dp" && ownKind(a, fd) && c.X.Message().IsValid() && c.Y.Message().IsValid():
 		dx := c.X.Message().Interface().(*durationpb.Duration).AsDuration()
 		dy := c.Y.Message().Interface().(*durationpb.Duration).AsDuration()
-		return dp32Line(float32(a.A), int64(dx), int64(dy)), true
+		return dp64Line(float32(a.A), int64(dx), int64(dy)), true
 	}
 	return "", false
 }
@@ -75,7 +75,7 @@ func nudgeUlps(f float64, n int) float64 {
 
 func runIEEE(f lib.Flags, res *lib.Result, drv *lib.Driver) {
 	tie := res.Tie("ieee-rounding", "K1",
-		"inputs on which float64/float32 arithmetic rounds: FloatValueApprox(fraction, margin) with decimal fractions/margins (0.1, 0.01, 1/3, 1e-9, ...) on x from decimals, thirds, 1e15-scale, float32-rounded, random-mantissa and subnormal values, y = x ± margin / x·(1 ± fraction) computed in float64 and moved by -2..2 ulps (so the comparison sits on the rounding boundary), also across signs; DurationValueWithinP(p) on int64 durations that do not convert exactly to float32 and quotients that round. Model side: the driver's IEEE tier (Lean core Float/Float32, same operation order as the code). Non-trivial: distinct inputs")
+		"inputs on which float64/float32 arithmetic rounds: FloatValueApprox(fraction, margin) with decimal fractions/margins (0.1, 0.01, 1/3, 1e-9, ...) on x from decimals, thirds, 1e15-scale, float32-rounded, random-mantissa and subnormal values, y = x ± margin / x·(1 ± fraction) computed in float64 and moved by -2..2 ulps (so the comparison sits on the rounding boundary), also across signs; DurationValueWithinP(p) with decimal percentages on int64 durations beyond 2^53 (conversions round), on the boundary x = y·(1 ± p/100) ± 2ns, 1-2 ns apart at huge magnitudes, across signs. Model side: the driver's IEEE tier (Lean core Float/Float32, same operation order as the code). Non-trivial: distinct inputs")
 	g := &gen{r: lib.NewRand(f.Seed + 15485863)}
 	dbl := posOf("default_double").fd()
 	dur := posOf("default_duration").fd()
@@ -113,26 +113,39 @@ func runIEEE(f lib.Flags, res *lib.Result, drv *lib.Driver) {
 			inputs = append(inputs, map[string]any{"op": "fa64", "fraction": fr, "margin": mg, "x": encFloat(x), "y": encFloat(y)})
 			tie.Count("fa64:" + map[bool]string{true: "exact-ops", false: "rounding"}[exactFloatOps(fr, mg, x, y)])
 		} else {
-			p := []float32{0.1, 0.5, 1, 1.0000001, 2, 1e-3, 0.33333334}[g.r.Intn(7)]
+			p := []float32{0.1, 10, 1, 100.00001, 50, 1e-3, 33.333332, 0}[g.r.Intn(8)]
 			var x, y int64
-			switch g.r.Intn(4) {
+			switch g.r.Intn(5) {
 			case 0:
 				x, y = g.r.Int63n(1<<40)-1<<39, g.r.Int63n(1<<40)-1<<39
 			case 1:
 				x, y = g.r.Int63()-g.r.Int63(), g.r.Int63()-g.r.Int63()
 			case 2:
-				y = g.r.Int63n(1<<30) + 1
-				x = int64(float64(y)*float64(p)) + int64(g.r.Intn(5)-2)
+				// on the boundary: x = y·(1 ± p/100) moved by a few ns (also beyond 2^53, where the conversions round)
+				y = g.r.Int63n(1<<uint(20+g.r.Intn(42))) + 1
+				x = int64(float64(y)*(1+float64(p)/100)) + int64(g.r.Intn(5)-2)
+				if g.r.Intn(2) == 0 {
+					x = int64(float64(y)/(1+float64(p)/100)) + int64(g.r.Intn(5)-2)
+				}
+				if g.r.Intn(4) == 0 {
+					x = -x
+				}
+			case 3:
+				x = g.r.Int63() - g.r.Int63()
+				y = x + int64(g.r.Intn(5)-2)
 			default:
 				x, y = int64(g.r.Intn(2001)-1000), int64(g.r.Intn(2001)-1000)
+			}
+			if g.r.Intn(2) == 0 {
+				x, y = y, x
 			}
 			vx := pref.ValueOfMessage(durationpb.New(time.Duration(x)).ProtoReflect())
 			vy := pref.ValueOfMessage(durationpb.New(time.Duration(y)).ProtoReflect())
 			eq, ok := cmp.DurationValueWithinP(p)(dur, vx, vy)
-			lines = append(lines, dp32Line(p, x, y))
+			lines = append(lines, dp64Line(p, x, y))
 			codes = append(codes, b2s(eq && ok))
-			inputs = append(inputs, map[string]any{"op": "dp32", "p": float64(p), "x": x, "y": y})
-			tie.Count("dp32:" + map[bool]string{true: "exact-ops", false: "rounding"}[exactDiv32(x, y)])
+			inputs = append(inputs, map[string]any{"op": "dp64", "p": float64(p), "x": x, "y": y})
+			tie.Count("dp64:" + map[bool]string{true: "exact-ops", false: "rounding"}[exactDP(p, x, y)])
 		}
 	}
 	ans, err := drv.Batch(lines)
